@@ -425,7 +425,7 @@ def check_faces(repo: Repo, rep: Report):
     todict = [n for n in body_walk(cs.node) if isinstance(n, ast.Assign) and isinstance(n.value, ast.Call) and isinstance(n.value.func, ast.Attribute) and n.value.func.attr == "to_dict" and dotted(n.value.func.value) == res_name]
     if dumps and todict and isinstance(dumps[0].args[0], ast.Name) and dumps[0].args[0].id == todict[0].targets[0].id:
         g = CFG(cs.node)
-        dn = next(x for x in g.nodes if x.ast is not None and any(c is dumps[0] for c in ast.walk(x.ast)) and x.kind == "stmt")
+        dn = g.node_of(dumps[0])
         conds = [g.nodes[d] for d in g.dominators()[dn.id] if g.nodes[d].kind == "branch"]
         bad = [b for b in conds if not (isinstance(b.ast, ast.Name) and b.ast.id == "json_output_path" and b.value is True) and not (cmp_normal(b.ast) and dotted(cmp_normal(b.ast)[0]) == "json_output_path")]
         if bad:
